@@ -390,6 +390,10 @@ OpEffect(x, op0, ret) ==
       [] n = "once" ->
             LET x1 == [x EXCEPT !.alive = @ \cup {op[2]}, !.spawned = @ \cup {op[2]}, !.storage[op[2]] = "idle", !.armed = @ \cup {op[2]}]
             IN [w |-> RegisterW(x1, op[2], op[3], TRUE), out |-> <<>>, q |-> <<>>]
+      \* ReactCommands::on / on_persistent / on_revokable: spawn a fresh system command, then register the bundle for it
+      [] n = "on" ->
+            LET x1 == [x EXCEPT !.alive = @ \cup {op[3]}, !.spawned = @ \cup {op[3]}, !.storage[op[3]] = "idle"]
+            IN [w |-> RegisterW(x1, op[3], op[4], op[2] # "persistent"), out |-> <<>>, q |-> <<>>]
       [] n = "revoke" -> [w |-> RevokeW(x, x.tok[op[2]].s, x.tok[op[2]].b), out |-> <<>>, q |-> <<>>]
       [] n = "probe" -> [w |-> x, out |-> <<>>, q |-> <<>>]
       [] n = "wadd" -> [w |-> RegisterW(x, WSysC(op[2]), op[3], FALSE), out |-> <<>>, q |-> <<>>]
@@ -482,7 +486,7 @@ OncePost(x, s) ==
 
 RPost(x, fr) ==
     (* :123-153: after the body's commands: once wrapper, GC, reinsert or drop the callback, poll *)
-    LET isonce == fr.s \in (NSys + 1)..(NSys + NOnce)
+    LET isonce == fr.s \in DOMAIN x.oncetok
         o == OncePost(x, fr.s)
         g1 == GcW(o.w)
         x1 == g1.w
@@ -557,6 +561,9 @@ IssueW(x, op0) ==
       [] n = "setlocal" ->
             LET ok == x.er.reacting /\ x.er.sys = EWSysC /\ x.er.src \in Ents /\ x.elocal[x.er.src] # 0
             IN IF ok THEN [w |-> [x EXCEPT !.elocal[x.er.src] = op[2]], ret |-> 1] ELSE [w |-> x, ret |-> 0]
+      [] n = "on" ->
+            [w |-> [x EXCEPT !.tok = IF op[5] > 0 THEN Put(@, op[5], [s |-> op[3], b |-> op[4]]) ELSE @,
+                             !.nextTok = IF op[5] >= @ THEN op[5] + 1 ELSE @, !.onceUsed = @ + 1], ret |-> 0]
       [] n = "once" ->
             [w |-> [x EXCEPT !.tok = Put(@, op[4], [s |-> op[2], b |-> op[3]]), !.oncetok = Put(@, op[2], op[3]),
                              !.nextTok = IF op[4] >= @ THEN op[4] + 1 ELSE @, !.onceUsed = @ + 1], ret |-> 0]
@@ -599,6 +606,8 @@ FreeOp(x, cur, OpNames_, go(_)) ==
             /\ \A j \in DOMAIN b : <<s, b[j]>> \notin x.regd
             /\ go(<<"reg", md, s, b, IF md = "revokable" THEN x.nextTok ELSE 0>>)
     \/ "once" \in OpNames_ /\ x.onceUsed < NOnce /\ \E b \in Bundles : go(<<"once", NSys + x.onceUsed + 1, b, x.nextTok>>)
+    \/ "on" \in OpNames_ /\ x.onceUsed < NOnce /\ \E md \in Modes, b \in Bundles :
+            go(<<"on", md, NSys + x.onceUsed + 1, b, IF md = "revokable" THEN x.nextTok ELSE 0>>)
     \/ "revoke" \in OpNames_ /\ \E k \in DOMAIN x.tok : go(<<"revoke", k>>)
     \/ "probe" \in OpNames_ /\ go(<<"probe">>)
     \/ "wadd" \in OpNames_ /\ \E i \in 1..NW, b \in Bundles : (\A j \in DOMAIN b : <<WSysC(i), b[j]>> \notin x.regd) /\ Len(b) > 0 /\ go(<<"wadd", i, b>>)
